@@ -2,7 +2,7 @@
 import ast
 
 from .astutil import unparse, dotted
-from .bitcells import (Unsupported, Param, View, Bits, CU32, ModVal, XorVal, Maybe, TableVal, Opaque, FuncValue, TOP, Record, Obj, ClassValue, BoundMethod,
+from .bitcells import (Unsupported, Param, View, Bits, CU32, ModVal, XorVal, NegMask, Maybe, TableVal, Opaque, FuncValue, TOP, Record, Obj, ClassValue, BoundMethod, TableRef,
                        PCell, INF, decide_range, cmp_pred, points_pred, mod_pred, origbit_pred, interval_pred, intervals_pred)
 from .bitexpr import CONSTS
 
@@ -110,7 +110,7 @@ class StmtMixin:
         if isinstance(s, ast.If):
             return self.exec_if(s, st)
         if isinstance(s, ast.For):
-            it = self.ev(s.iter, st)
+            it = self.plain(self.ev(s.iter, st))
             if st.dead:
                 return None
             if isinstance(it, dict):
@@ -225,13 +225,30 @@ class StmtMixin:
             if target is not None:
                 self.bind_target(target, v, st, b)
             return st
-        # idiom 2: x = TABLE[key]  (handler: raise ...)
-        if target is not None and isinstance(value, ast.Subscript) and isinstance(value.value, ast.Name) \
-                and self.is_table_name(value.value.id, st):
+        # idiom 2: x = TABLE[key] / return TABLE[key]  (handler: raise ...)
+        tref = None
+        if (target is not None or isinstance(b, ast.Return)) and isinstance(value, ast.Subscript) \
+                and not isinstance(value.slice, ast.Slice):
+            probe = st.clone()
+            try:
+                tref = self.ev(value.value, probe)
+            except Unsupported:
+                tref = None
+            if probe.dead:
+                tref = None
+        if isinstance(tref, TableRef):
+            tname = tref.name
             key = self.ev(value.slice, st)
             if st.dead:
                 return None
-            v, src, miss = self.table_lookup(value.value.id, key, st, value)
+            v, src, miss = self.table_lookup(tname, key, st, value)
+
+            def deliver(state):
+                if isinstance(b, ast.Return):
+                    self.rets[-1].append((state, v))
+                    return None
+                self.bind_target(target, v, state, b)
+                return state
             covers = caught == 'all' or 'KeyError' in caught
             if miss == 'miss':
                 if not covers:
@@ -239,20 +256,20 @@ class StmtMixin:
                     return None
                 return self.exec_block(h.body, st)
             if not miss:
-                self.bind_target(target, v, st, b)
-                return st
+                return deliver(st)
             if not covers:
                 self.raises.append({'node': value, 'fn': self.chain()})
                 st.lookup[src] = 'hit'
-                self.bind_target(target, v, st, b)
-                return st
+                return deliver(st)
             hit, mis = st, st.clone()
             hit.lookup[src] = 'hit'
-            self.bind_target(target, v, hit, b)
+            hit = deliver(hit)
             mis.lookup[src] = 'miss'
             mis = self.exec_block(h.body, mis)
             if mis is None:
                 return hit
+            if hit is None:
+                return mis
             return self.join(hit, mis)
         raise Unsupported('try statement outside the coercion / table-lookup idioms in {}'.format(self.fn_stack[-1]))
 
@@ -291,14 +308,30 @@ class StmtMixin:
                 both = ast.copy_location(ast.BoolOp(op=ast.And(), values=parts), test)
                 return self.split(both, st)
             return self.split_compare(test, st)
-        if isinstance(test, ast.Call) and not (isinstance(test.func, ast.Name) and not self.shadowed(test.func.id, st)) \
-                and not isinstance(test.func, ast.Attribute):
-            callee = self.ev(test.func, st)
+        callee = None
+        if isinstance(test, ast.Call) and not (isinstance(test.func, ast.Name) and not self.shadowed(test.func.id, st)):
+            if not isinstance(test.func, ast.Attribute):
+                callee = self.ev(test.func, st)
+            else:
+                probe = st.clone()
+                try:
+                    base = self.ev(test.func.value, probe)
+                except Unsupported:
+                    base = None
+                if isinstance(base, Obj) and not probe.dead:
+                    callee = self.get_attr(base, test.func.attr, st, test)
+            if isinstance(callee, BoundMethod) and not callee.fdef.decorator_list:
+                callee = FuncValue(callee.fdef, {callee.fdef.args.args[0].arg: callee.obj} if callee.fdef.args.args else None, callee.label)
+                callee.skip_first = True
+        if callee is not None:
             body = self.predicate_body(callee)
             if body is not None:
                 args, kwargs = self.eval_args(test, st)
                 if st.dead:
                     return None, None, True
+                if getattr(callee, 'skip_first', False):
+                    args = [callee.cenv[callee.fdef.args.args[0].arg]] + list(args)
+                    callee = FuncValue(callee.fdef, None, callee.label)
                 env = self.bind_params(callee, args, kwargs)
                 st.stack.append(st.env)
                 st.env = env
@@ -402,7 +435,7 @@ class StmtMixin:
         t = self.py_truth(v)
         if t is not None:
             return (st, None, True) if t else (None, st, True)
-        if isinstance(v, ModVal):
+        if isinstance(v, (ModVal, NegMask)):
             return self.split_values(v, ast.NotEq(), 0, st, node)
         if isinstance(v, (Param, View, Bits)):
             return self.split_values(v, ast.NotEq(), 0, st, node)
@@ -419,19 +452,24 @@ class StmtMixin:
                 t, f, e = self.split_typetest(self.ev(l.args[0], st), types, False, st, test)
                 return (t, f, e) if isinstance(op, (ast.Eq, ast.Is, ast.In)) else (f, t, e)
         # key in TABLE
-        if isinstance(op, (ast.In, ast.NotIn)) and isinstance(right, ast.Name) and self.is_table_name(right.id, st):
-            key = self.ev(left, st)
-            if st.dead:
-                return None, None, True
-            t, f, e = self.split_member(right.id, key, st, test)
-            return (t, f, e) if isinstance(op, ast.In) else (f, t, e)
         a = self.ev(left, st)
         if st.dead:
             return None, None, True
         b = self.ev(right, st)
         if st.dead:
             return None, None, True
+        if isinstance(op, (ast.In, ast.NotIn)) and isinstance(b, TableRef):
+            t, f, e = self.split_member(b.name, a, st, test)
+            return (t, f, e) if isinstance(op, ast.In) else (f, t, e)
+        a, b = self.plain(a), self.plain(b)
         return self.split_values(a, op, b, st, test)
+
+    def has_objects(self, v):
+        if isinstance(v, list):
+            return any(self.has_objects(x) for x in v)
+        if isinstance(v, dict):
+            return any(self.has_objects(x) for x in v.values())
+        return not isinstance(v, CONSTS)
 
     def split_member(self, tname, key, st, node):
         table, mode = self.table(tname)
@@ -504,6 +542,10 @@ class StmtMixin:
             except (KeyError, TypeError) as e:
                 raise Unsupported('cannot fold comparison {}: {}'.format(unparse(node), e))
             return (st, None, True) if res else (None, st, True)
+        if isinstance(a, (list, dict)) and isinstance(b, (list, dict)) and isinstance(op, (ast.Eq, ast.NotEq)) \
+                and self.is_static(a) and self.is_static(b) and not self.has_objects(a) and not self.has_objects(b):
+            res = (a == b) == isinstance(op, ast.Eq)
+            return (st, None, True) if res else (None, st, True)
         if isinstance(op, (ast.Is, ast.IsNot, ast.Eq, ast.NotEq)) and (a is None or b is None):
             other = b if a is None else a
             if isinstance(other, (Param, View, Bits, ModVal, list, dict, FuncValue, Opaque, TableVal, Record, Obj, ClassValue, BoundMethod)):
@@ -516,6 +558,8 @@ class StmtMixin:
             a, b, op = b, a, FLIP[type(op)]()
         if isinstance(a, ModVal):
             return self.split_mod(a, op, b, st, node)
+        if isinstance(a, NegMask):
+            return self.split_negmask(a, op, b, st, node)
         a = self.as_int_view(a, st, node)
         if isinstance(a, Bits):
             return self.split_bits(a, op, b, st, node)
@@ -533,6 +577,8 @@ class StmtMixin:
                 t, f2, _ = self.apply_pred(t, a, mod_pred(step, lo % step, True))
                 f = f2 if f is None else (f if f2 is None else self.join(f, f2))
             return (t, f, True) if pos else (f, t, True)
+        if a.shift < 0:
+            raise Unsupported('comparison after a left shift: {}'.format(unparse(node)))
         if a.shift:
             # (x >> s) OP b  over integers:  floor division by 2**s is monotone
             sh = a.shift
@@ -579,6 +625,31 @@ class StmtMixin:
         t.cells[src] = tc
         f.cells[src] = fc
         return (t if tc else None), (f if fc else None), True
+
+    def split_negmask(self, a, op, b, st, node):
+        """(x & ~m) ==/!= 0 with m a contiguous run of ones (bits lo..hi-1):  zero iff 0 <= x < 2**hi and x % 2**lo == 0"""
+        if not (isinstance(op, (ast.Eq, ast.NotEq)) and b == 0 and not isinstance(b, bool)):
+            raise Unsupported('test of the bits outside a mask against something other than 0: {}'.format(unparse(node)))
+        m = a.m
+        x = a.x
+        if m == 0:
+            lo_bit, hi_bit = 0, 0
+        else:
+            lo_bit = (m & -m).bit_length() - 1
+            hi_bit = m.bit_length()
+            if m != ((1 << hi_bit) - 1) ^ ((1 << lo_bit) - 1):
+                raise Unsupported('mask with holes in a range test: {}'.format(unparse(node)))
+        if x.shift < 0 or x.trunc is not None:
+            raise Unsupported('mask test after a left shift: {}'.format(unparse(node)))
+        # x = (orig + off) >> s ;  0 <= x < 2**hi  <=>  0 <= orig + off < 2**(hi + s) ;  x % 2**lo == 0  <=>  bits s..s+lo-1 of (orig+off) are 0
+        base = View(x.src, x.ch, x.add, 0, None)
+        t, f, _ = self.apply_pred(st, base, interval_pred(0, (1 << (hi_bit + x.shift)) - 1, True))
+        if lo_bit and t is not None:
+            if x.shift:
+                raise Unsupported('alignment test through a mask after a shift: {}'.format(unparse(node)))
+            t, f2, _ = self.apply_pred(t, base, mod_pred(1 << lo_bit, 0, True))
+            f = f2 if f is None else (f if f2 is None else self.join(f, f2))
+        return (t, f, True) if isinstance(op, ast.Eq) else (f, t, True)
 
     def split_mod(self, a, op, b, st, node):
         x = self.as_int_view(a.x, st, node)
